@@ -217,6 +217,12 @@ def _reference(d, K, F, T, kind):
     return ref
 
 
+def _rows_distinct_exactly(ref):
+    K = ref.shape[0]
+    return all(np.all(np.any(ref[a] != ref[b], axis=-1))
+               for a in range(K) for b in range(a + 1, K))
+
+
 def _rows_distinct(ref, tol=1e-6):
     """normalised rows pairwise differ by >= tol in every bin (and are
     non-zero), also un-normalised rows differ."""
@@ -237,7 +243,7 @@ def _roundtrip_case(ctx, ref, perms, metric, algorithm, flatten):
     pa = _pa()
     K, F, T = ref.shape
     r64 = np.asarray(ref, dtype=np.float64)
-    if metric != 'euclidean' and \
+    if ref.dtype.kind != 'i' and metric != 'euclidean' and \
             np.max(np.abs(r64 - r64.mean())) <= 1e-2 * max(abs(float(r64.mean())), 1e-300):
         # inner-product scores of nearly equal rows differ by the square of the
         # row distance (1e-8 relative): below the rounding of the inner
@@ -284,6 +290,32 @@ def roundtrip_generated(d, ctx):
     algorithm = d.choice(ALGOS)
     flatten = d.int(0, 3) == 0
     ref = _reference(d, K, F, T, kind)
+    exact_int = False
+    if d.epoch >= 3 and K >= 2 and T >= 2 and d.aux(152).integers(0, 8) == 0:
+        # integer masks (counts, fixed-point features) whose inner products are
+        # exact in 64-bit integers but beyond the 2^53 of double precision: the
+        # rows share one large entry and differ in small ones.  The 'multiply'
+        # score of integer masks is computed in integers, so the rows are
+        # told apart exactly; the identity assignment is the unique maximiser
+        # (<a,b> <= (|a|^2 + |b|^2)/2 with equality for a = b only) and the
+        # largest entry of every score matrix lies on its diagonal
+        aux = d.aux(153)
+        big = 2 ** int(aux.integers(27, 30))
+        small = np.zeros((K, F, T), dtype=np.int64)
+        for f in range(F):
+            codes = aux.permutation(5 ** min(T - 1, 3))[:K] if 5 ** min(T - 1, 3) >= K else None
+            if codes is None:
+                small = None
+                break
+            for k in range(K):
+                c = int(codes[k])
+                for t in range(1, min(T, 4)):
+                    small[k, f, t] = c % 5
+                    c //= 5
+        if small is not None:
+            small[:, :, 0] = big
+            ref = small
+            metric, kind, exact_int = 'multiply', 'int64-large', True
     if metric == 'multiply' and kind == 'negative':
         # for the un-normalised inner product the statement needs rows of
         # comparable orientation only through distinctness; keep it.
@@ -292,11 +324,11 @@ def roundtrip_generated(d, ctx):
         p = d.perm(K)
         perms = [p] * F
         flat = ref.reshape(K, 1, F * T)
-        if not _rows_distinct(flat):
+        if not (_rows_distinct_exactly(flat) if exact_int else _rows_distinct(flat)):
             raise Borderline('rows not distinct')
     else:
         perms = [d.perm(K) for _ in range(F)]
-        if not _rows_distinct(ref):
+        if not (_rows_distinct_exactly(ref) if exact_int else _rows_distinct(ref)):
             raise Borderline('rows not distinct')
     ctx.describe(K=K, F=F, T=T, kind=kind, metric=metric, algorithm=algorithm,
                  flatten=flatten, perms=perms[:5])
